@@ -52,3 +52,19 @@ _all_tables = {"self.tables": (lambda it: list(it.live_env["self"].fields["tdve"
                "np.amin": (lambda it, a: float(min(a))), "np.amax": (lambda it, a: float(max(a)))}
 CONTRACTS["data:ProjectData.start_year"] = dict(schema=schema, make_env=_env_years, call_stubs=_all_tables, ensures=[("C03+C16.the_start_year_is_the_earliest_year_column_of_any_table", "result == 2001.0")], defined_props=["C03", "C16"])
 CONTRACTS["data:ProjectData.end_year"] = dict(schema=schema, make_env=_env_years, call_stubs=_all_tables, ensures=[("C03+C16.the_end_year_is_the_latest_year_column_of_any_table", "result == 2012.5")], defined_props=["C03", "C16"])
+
+
+# ---- ProjectData.get_tdve_page (C16 / C18: error messages name the sheet a table is on): the sheet whose list holds the code name; NotFoundError when no sheet lists it
+def _env_page(code):
+    def make(it):
+        from pyvc.interp import PyObjV
+        from pyvc import source
+
+        return {"self": PyObjV("ProjectData", source.load("data"), {"tdve_pages": {"Stocks": ["sus", "inf"], "Flows": ["rec"], "Empty": []}}), "code_name": code}
+
+    return make
+
+
+for _code, _sheet in (("sus", "Stocks"), ("rec", "Flows")):
+    CONTRACTS["data:ProjectData.get_tdve_page#%s" % _code] = dict(schema=schema, make_env=_env_page(_code), ensures=[("C16+C18.the_page_is_the_sheet_that_lists_the_quantity", "result == %r" % _sheet)], defined_props=["C16", "C18"])
+CONTRACTS["data:ProjectData.get_tdve_page#unknown_quantity"] = dict(schema=schema, make_env=_env_page("nothing"), raises={"NotFoundError": "True"}, raises_props=["C18"], ensures=[], defined_props=["C16", "C18"])
